@@ -51,7 +51,7 @@ pub fn string_to_bool(this: &Str) -> (b: bool)
 //@ body
 //@ item str_to_bool file=src/core/string.rs block="impl StringExt for str" fn=to_bool
 //@ rw R2 + re⟦\bself\b⟧ => ⟦this⟧
-//@ rw R2 1 ⟦this.to_string().to_bool()⟧ => ⟦string_to_bool(&this.to_string())⟧
+//@ rw R2 * ⟦this.to_string().to_bool()⟧ => ⟦string_to_bool(&this.to_string())⟧
 pub fn str_to_bool(this: &Str) -> (b: bool)
     ensures b == !(this@.len() == 0 || lower(this@) == "false"@ || lower(this@) == "0"@)     //@ clause to_bool.false_exactly_for_empty_0_false [C19]
 //@ body
